@@ -147,6 +147,7 @@ def shape_sweep(ctx):
             cls = M.select(method, st)
             for nt in cls.noise_types:
                 for dtype in (torch.float32, torch.float64):
+                    got = {}
                     for as_list in (False, True):
                         mk = sdes.Maker(symbolic=False, seed=3, dtype=dtype)
                         d, m = 2, (2 if nt in ('additive', 'general') else (1 if nt == 'scalar' else 2))
@@ -156,10 +157,20 @@ def shape_sweep(ctx):
                         tsa = ts if as_list else torch.tensor(ts, dtype=dtype)
                         bm = torchsde.BrownianInterval(0.0, 0.41, size=(3, m), dtype=dtype, entropy=5,
                                                        levy_area_approximation=sdes.levy_for(method))
-                        ys = torchsde.sdeint(sde, y0, tsa, bm=bm, method=method, dt=0.1)
+                        # the library default dtype (float32) is in force here whatever the harness uses elsewhere: a list of
+                        # times must be read in y0's dtype, not in the default one
+                        old_default = torch.get_default_dtype()
+                        torch.set_default_dtype(torch.float32)
+                        try:
+                            ys = torchsde.sdeint(sde, y0, tsa, bm=bm, method=method, dt=0.1)
+                        finally:
+                            torch.set_default_dtype(old_default)
                         n += 1
+                        got[as_list] = ys
                         if tuple(ys.shape) != (len(ts), 3, d) or ys.dtype != dtype or not torch.equal(ys[0], y0):
                             bad.append((st, method, nt, str(dtype), as_list, tuple(ys.shape), str(ys.dtype)))
+                    if got[True].shape == got[False].shape and not torch.equal(got[True], got[False]):
+                        bad.append((st, method, nt, str(dtype), 'list-vs-tensor values differ', float((got[True] - got[False]).abs().max()), str(got[True].dtype)))
     return n, bad
 
 
